@@ -40,7 +40,7 @@ PROP = dict(
          "sendControlResponse, and the real client entry points OpenShellStream / UploadFile / DownloadFile whose STREAM_OPEN is acknowledged through the real stream manager so that they seal and send their metadata message with a 10..70000-byte argument/path) with 0..200000-byte messages and requires no frame > limit on the wire; stall pushes the frames of a 0.16-16 MB transfer from a "
          "goroutine through the REAL Agent.handleStreamData -> stream.Manager.HandleStreamData -> Stream.PushData into a stream of the agent's stream manager while "
          "the application (meshConn.Read) stalls 0-7 s with up to 1000 frames in flight (one 3 s stall with 199 frames in quick) and requires the bytes read to equal "
-         "the bytes sent. Engine c07: "
+         "the bytes sent; nf = delivery WITHOUT a following FIN: writes of 1/16355/16356/16357/32712/32768/49068/... bytes and multi-write patterns ending exactly on a frame boundary, through the real exit and forward Handler.HandleStreamOpen (dialing a loopback listener; initiator key from the handler's own STREAM_OPEN_ACK) + HandleStreamData, through Agent.handleStreamData->meshConn.Read, and through shell.Handler.HandleStreamData->stdin, must be held by the far end within 2 s with the tunnel left open. Engine c07: "
          "op = (data path, write size n, source granularity cap, EOF style); n swept over 0,1,2,100,4095..4097, every boundary "
          "MaxPayloadSize-100-28+-1, MaxPayloadSize-28-2..+1, MaxPayloadSize-1..+1, +28, +29, 2x and 3x multiples, 64 KiB, 100000, 1 MiB "
          "(thorough: random sizes, 40 writes of 1-4 MiB, 4 MiB on every path); cap in {unlimited,1000,4096,16355,16356,16357,16384,32768,random}; "
